@@ -136,6 +136,19 @@ class Flow:
         s = set(names)
         return self.calls(lambda c: c in s)
 
+    def sites_of(self, *names):
+        """calls of the named functions AND the places where one of them was spliced in for analysis (inline.py keeps the
+        callee, the argument operands and the destination on the goto that replaced the call): [(bb, call-like term)].
+        `outcomes(bb)` / `guarded_by(.., bb, ..)` work on both."""
+        s = set(names)
+        out = list(self.calls(lambda c: c in s))
+        for bi in sorted(self.cfg.reachable()):
+            t = self.body.blocks[bi]['term']
+            if t.get('inlined') in s and isinstance(t.get('inlined_dst'), dict):
+                out.append((bi, {'k': 'call', 'spliced': t['inlined'], 'args': t.get('inlined_args', []), 'dst': t['inlined_dst'],
+                                 'target': t.get('target'), 'line': t.get('line'), 'col': t.get('col')}))
+        return out
+
     def calls_matching(self, suffixes):
         return self.calls(lambda c: any(c == s or c.endswith(s) for s in suffixes))
 
@@ -166,7 +179,7 @@ class Flow:
         'None','true','false', or variant names for crate enums ('Commit', ...)."""
         if local is None:
             t = self.body.blocks[bb]['term']
-            local = t['dst']['l']
+            local = (t['dst'] if 'dst' in t else t['inlined_dst'])['l']      # (a spliced call keeps its destination: sites_of)
         ty = self.body.local_ty(local)
         res = defaultdict(set)
         seen = set()
